@@ -65,6 +65,16 @@ Theorem C06_lin_check_sound : forall fuel h, lin_check fuel h = true -> lineariz
 Proof. exact HistProofs.lin_check_sound. Qed.
 Print Assumptions C06_lin_check_sound.
 
+(* what the checker demands per key is implied by what the model is proved to satisfy (the
+   easy half of locality; the converse, Herlihy-Wing, is not proved) *)
+Theorem C06_model_histories_pass_per_key : forall cf tr,
+  lts_trace (init cf) tr -> linearizable_per_key (history (init cf) tr).
+Proof.
+  exact (fun cf tr H => HistProofs.linearizable_per_key_of_linearizable _
+                          (EngineConcProofs.C06_linearizable cf tr H)).
+Qed.
+Print Assumptions C06_model_histories_pass_per_key.
+
 (* the code still has the shape the atomic steps of the LTS assume (facts regenerated from
    the Go source on every run by gofacts/conc.go) *)
 Theorem C06_code_facts : forallb (fun b => b) conc_facts = true /\ N.of_nat max_retries = cf_max_retries.
